@@ -16,7 +16,7 @@ From Coq Require Strings.String.
 Import ListNotations.
 Import Coq.Strings.String.StringSyntax.
 From GoCar Require Import Bytes Monitor GeneratedLockFacts RunConc.
-From GoCarProofs Require Import MonitorDRF MonitorLive MonitorInst MonitorExec MonitorFacts MonitorLin.
+From GoCarProofs Require Import MonitorDRF MonitorLive MonitorInst MonitorExec MonitorFacts MonitorLin MonitorReduce.
 Local Open Scope string_scope.
 
 (* the generated tables are those of the four types, and every path of every operation of every
@@ -82,19 +82,67 @@ Theorem C08_blocking_while_holding_a_lock_only_at_reviewed_sites :
 Proof. exact facts_listed_blocking. Qed.
 Print Assumptions C08_blocking_while_holding_a_lock_only_at_reviewed_sites.
 
+(* From micro-steps to atomic sections (programs with data; Monitor.v section Data): threads are
+   resumptions -- what a call does next may depend on every value it has read -- over one RW mutex,
+   critical sections not nested, no goroutine creation.  If every thread obeys the lock discipline
+   ([pok]: shared fields are read only under the lock, written only under the exclusive lock, fields
+   read without the lock are never written) then every configuration the micro-step machine reaches,
+   with reads and writes of different threads interleaved arbitrarily, is matched by a configuration
+   of the machine that has NO locks and runs each critical section from acquire to release in ONE
+   step: threads outside a section are in the same state, and whenever no writer is inside a section
+   the stores are equal.  The atomic machine takes a section's step when the micro-step machine
+   performs its release, i.e. between the call's first and last action.  The discipline on
+   resumptions follows from the discipline [ok] on their lock/access traces, which is what
+   harness/lockfacts extracts and C08_lock_discipline_holds checks. *)
+Theorem C08_micro_steps_reduce_to_atomic_sections :
+  forall (V R : Type) (exempt : nat -> bool) (s : store V) (ps : list (prog V R)) (c : dcfg V R),
+    Forall (pok V R exempt None) ps ->
+    dsteps V R (dinit V R s ps) c ->
+    exists a, asteps V R exempt (ainit V R s ps) a /\
+      Forall2 (fun t p => dh V R t = None -> p = dp V R t) (dts V R c) (ats V R a) /\
+      (dwl V R c = false -> forall f, dst V R c f = ast V R a f).
+Proof. exact micro_steps_reduce_to_atomic_sections. Qed.
+Print Assumptions C08_micro_steps_reduce_to_atomic_sections.
+
+Theorem C08_terminated_runs_are_runs_of_atomic_sections :
+  forall (V R : Type) (exempt : nat -> bool) (s : store V) (ps : list (prog V R)) (c : dcfg V R) (rs : list R),
+    Forall (pok V R exempt None) ps ->
+    dsteps V R (dinit V R s ps) c ->
+    dts V R c = map (fun r => {| dh := None; dp := PRet V R r |}) rs ->
+    exists a, asteps V R exempt (ainit V R s ps) a /\ ats V R a = map (PRet V R) rs /\
+              forall f, dst V R c f = ast V R a f.
+Proof. exact terminated_runs_are_atomic. Qed.
+Print Assumptions C08_terminated_runs_are_runs_of_atomic_sections.
+
+Theorem C08_trace_discipline_gives_program_discipline :
+  forall (V R : Type) (exempt : nat -> bool) (v0 : V) (listed : nat -> bool) (tbl : list (held * path))
+         (p : prog V R) (h : option mode),
+    (forall t, ptrace V R p t ->
+       ok (fun _ => 0%nat) exempt listed tbl (match h with Some md => [(0%nat, md)] | None => [] end) t = true) ->
+    pok V R exempt h p.
+Proof. exact pok_of_traces. Qed.
+Print Assumptions C08_trace_discipline_gives_program_discipline.
+
 (* Linearizability, stated over the atomic-section semantics: every call is an invocation, ONE atomic
    step of the sequential specification (its critical section) and a response.  Every such execution
    passes the linearizability check with the order of the critical sections as witness: that order
    lists every call once, never puts a call after one that was invoked after it returned, and the
    sequential specification replayed along it yields exactly the results the calls returned.
-   _partial: the reduction from the micro-step semantics of Monitor.v (where a critical section is a
-   sequence of field accesses interleaved with other threads' steps) to this atomic-section semantics
-   is NOT proved here.  What is proved towards it: C08_critical_sections_are_isolated (no other thread
-   performs a conflicting access while a section is open, so a section's accesses commute with every
-   concurrent step).  What is missing: a data semantics for Rd/Wr and the commuting (Lipton reduction)
-   argument that turns isolation into "each section acts as one step of spec_step"; and the
-   correspondence spec_step = what the Go critical sections compute, which is established by the
-   differential runs (and by C04's store model for the sequential behaviour), not by proof. *)
+   _partial: the chain from the Go code to this statement has these links --
+     (1) today's source obeys the lock discipline: C08_lock_discipline_holds (translator + vm_compute);
+     (2) discipline => sections are isolated (C08_critical_sections_are_isolated) and, for programs
+         with data, every micro-step execution is an execution of atomically executed sections
+         (C08_micro_steps_reduce_to_atomic_sections): PROVED for one RW mutex, sections not nested, no
+         goroutine creation.  NOT proved: the same reduction with the nested pair
+         DeferredCarWriter.lk -> StorageCar.mu (there every access happens under the exclusive outer
+         lock, so the one-mutex theorem applies to lk with the inner lock ignored -- an argument, not a
+         theorem), with goroutine creation inside a section (ReadWrite.AllKeysChan after the repair
+         starts a goroutine that touches no shared field: its table entry contains only Blk), and
+         with lock hand-off (ReadOnly.AllKeysChan; ReadOnly alone is not one of the property's objects);
+     (3) the atomic step of each critical section is spec_step: NOT proved -- that is the sequential
+         behaviour of the code (C04's store model); here it is sampled by the differential runs: every
+         observed history must pass lin_check, which replays spec_step;
+     (4) atomic sections => linearizable: this theorem. *)
 Theorem C08_linearizable_partial :
   forall (store : N) (v1 : bool) (ops : list cop) (tr : list ev),
     wf_trace (List.length ops) tr ->
